@@ -168,7 +168,7 @@ def oracle(ctx, case, res, real):
 
 STAGES = [("-u", "-U"), ("--nextseq-trim",), ("-q", "-Q"),
           ("-a", "-g", "-b", "-A", "-G", "-B", "-e", "-O", "--no-indels", "--action", "--times", "--pair-adapters", "--revcomp"),
-          ("--poly-a",), ("-l", "-L"), ("--trim-n",), ("--length-tag",), ("--strip-suffix",), ("-x", "-y"), ("--zero-cap",)]
+          ("--poly-a",), ("-l", "-L"), ("--trim-n",), ("--length-tag",), ("--strip-suffix",), ("-x", "-y"), ("--zero-cap",), ("--rename",)]
 
 
 def stepwise_oracle(ctx, case, real):
@@ -248,7 +248,9 @@ def directed_stepwise(ctx):
         maybe(0.3, ["--trim-n"])
         maybe(0.15, ["--length-tag", "length="])
         maybe(0.15, ["--strip-suffix", rng.choice(["0:1", ":1"])])
-        maybe(0.15, rng.choice([["-x", "P_"], ["-y", "_s"]]))
+        if not maybe(0.15, rng.choice([["-x", "P_"], ["-y", "_s"]])) and "--revcomp" not in argv:
+            # templates that read the current name only (no adapter/cut information, which a separate run would not have)
+            maybe(0.3, ["--rename", rng.choice(["{header} renamed", "{id} c={comment}", "x_{id} {comment}", "{id}"])])
         maybe(0.2, ["--zero-cap"])
         argv += ["-o", "{dir}/o1.fastq"] + (["-p", "{dir}/o2.fastq"] if paired else [])
         r1, r2 = pipe.gen_reads(rng, 6, ["GATTACAGA", "TTAGGCATC"], ["AAAGGGCCC", "CCGGTTAAC"], paired, True, "--revcomp" in argv)
